@@ -9,6 +9,7 @@ repo=/tmp/sh-$slot-repo; h=/tmp/sh-$slot
 out=/tmp/mutres/$name.txt
 : > $out
 git -C $repo checkout -q -- . && git -C $repo clean -fdq
+git -C $repo checkout -q --detach $(git -C /repo rev-parse main)
 if ! git -C $repo apply $mdir/patch.diff 2>>$out; then
   if ! git -C $repo apply -3 $mdir/patch.diff 2>>$out; then echo "APPLY-FAILED" >> $out; exit 0; fi
 fi
